@@ -630,30 +630,6 @@ func c13mSameObs(a, b []c12Obs) (int, bool) {
 	return 0, true
 }
 
-// c13mFlushPre: the premise of the fast solver's Flush theorem: no neuronSignalsBeingProcessed slot below
-// biasNeuronCount is both written (target of a connection or output of a module) and read by a module
-func c13mFlushPre(fs network.Solver) bool {
-	st := network.VerifFastSolverStatic(fs)
-	_, mods := network.VerifFastSolverExtra(fs.(*network.FastModularNetworkSolver))
-	written := map[int]bool{}
-	for _, t := range st.Targets {
-		written[t] = true
-	}
-	for _, m := range mods {
-		for _, o := range m.Outputs {
-			written[o] = true
-		}
-	}
-	for _, m := range mods {
-		for _, i := range m.Inputs {
-			if i < st.Bias && written[i] {
-				return false
-			}
-		}
-	}
-	return true
-}
-
 func c13mRegistered(fs network.Solver) bool {
 	st := network.VerifFastSolverStatic(fs)
 	_, mods := network.VerifFastSolverExtra(fs.(*network.FastModularNetworkSolver))
@@ -741,14 +717,6 @@ func c13mOne(r *Run, cf *CaseFile, id int, in c13mInput) {
 			continue
 		}
 		if t, same := c13mSameObs(runs[j][a.Fresh:], runs[j+1]); !same {
-			if a.Solver == 1 && fs0 != nil && !c13mFlushPre(fs0) {
-				r.Hist("observation", "fast solver: a module output written into a bias slot of neuronSignalsBeingProcessed survives Flush and is read by a module (outside the theorem's premise)")
-				if len(r.Res.Notes) < 6 {
-					b, _ := json.Marshal(small(a, b))
-					r.Note("modular fast solver, Flush is not a reset when a module writes a bias slot that a module reads; input: " + string(b))
-				}
-				continue
-			}
 			fa, fb := runs[j][a.Fresh+t], runs[j+1][t]
 			r.Fail(Failure{Key: fmt.Sprintf("c13m-%s-flush family=%s via=%s modules=%d", name, in.Family, in.Via, len(in.Ctrl)),
 				What:  fmt.Sprintf("%s solver (modular network): operation %d after Flush behaves differently from the same operation on a fresh instance", name, t),
@@ -1156,7 +1124,8 @@ func c13mGen(rng *rand.Rand, i int) c13mInput {
 				in.Ctrl[a], in.Ctrl[b] = in.Ctrl[b], in.Ctrl[a]
 			}
 		case "bias-slot":
-			// a module that writes a bias node, listed after a module that reads that bias node
+			// a module that writes a bias node, listed after a module that reads that bias node (the scratch slot of
+			// a bias neuron: Flush has to clear it)
 			var bias []int
 			for p, nd := range in.Net.Nodes {
 				if nd.Role == 3 {
@@ -1252,7 +1221,8 @@ func c13mHand() []c13mInput {
 		{Role: 0, Act: 17, In: []c12Link{}}, {Role: 2, Act: 14, In: []c12Link{lnk(2, 1)}}}, Inputs: []int{0, 1}, Outputs: []int{3}}
 	out = append(out, c13mInput{Kind: "c13m", Family: "sensor-input", Via: "direct", Net: sens, Ctrl: []c13mCtrl{{Act: 21, In: []int{0, 1}, Out: []int{2}}},
 		Runs: both(load(3, 5), fwd(3))})
-	// a module writing the bias node, read by an earlier module: the written slot survives the fast solver's Flush
+	// a module writing the bias node, read by an earlier module: before the repair of Flush the written scratch slot
+	// survived the fast solver's Flush (regression test of that fix: the fresh-instance oracle fails on it with the old Flush)
 	bs := c12Net{Nodes: []c12Node{{Role: 1, Act: 17, In: []c12Link{}}, {Role: 3, Act: 17, In: []c12Link{}},
 		{Role: 0, Act: 17, In: []c12Link{}}, {Role: 2, Act: 14, In: []c12Link{lnk(2, 1)}}, {Role: 0, Act: 14, In: []c12Link{lnk(0, 1)}}},
 		Inputs: []int{0, 1}, Outputs: []int{3}}
